@@ -247,7 +247,15 @@ class Seams:
         if not getattr(real_solve, "_pactisim_wrapped", False):
             def solve(*a, **k):  # noqa: WPS430
                 log.count("sympy_solve_calls")
-                return real_solve(*a, **k)
+                res = real_solve(*a, **k)
+                # reach probes: how many unknowns, and whether sympy solved for all of them
+                unknowns = len(a) - 1
+                try:
+                    shape = "all" if len(res) == unknowns else ("none" if len(res) == 0 else "partial")
+                except TypeError:
+                    shape = "other"
+                log.count("sympy_solve:unknowns=%d:solved=%s" % (min(unknowns, 4), shape))
+                return res
 
             solve._pactisim_wrapped = True  # type: ignore
             solve._pactisim_real = real_solve  # type: ignore
